@@ -288,6 +288,18 @@ def freeStep (v nv : Nat) (cfq : X) (acc : CState × Rep) (ode : CEqn) : CState 
       else ({ acc.1 with raised := true }, acc.2)                              -- AssertionError
   | .var _ => acc
 
+/-- `if original_variable in state_symbols: …_convert_state_variable_deriv…` -/
+def statePhase (isState : Bool) (s1 : CState) (v nv : Nat) (cfq : X) : CState × Rep :=
+  if isState then convertStateDeriv s1 v nv cfq else (s1, [])
+
+/-- `if original_variable == free_symbol: for … in sorted(odes): …_convert_free_variable_deriv…` -/
+def freePhase (isFree : Bool) (acc : CState × Rep) (v nv : Nat) (cfq : X) : CState × Rep :=
+  if isFree then (sortedOdes acc.1).foldl (freeStep v nv cfq) acc else acc
+
+/-- `if derivative_replacements: self._replace_references_to_derivatives(derivative_replacements)` -/
+def replacePhase (acc : CState × Rep) : CState :=
+  if acc.2.isEmpty then acc.1 else replaceRefs acc.1 acc.2
+
 /-- `convert_variable(v, units, direction, move_annotations)` with `cf = get_conversion_factor(v.units, units)`:
     answers the state, the variable returned, and the derivative replacement map that was applied -/
 def convertVariable (s : CState) (v : Nat) (u : U) (cf : Rat) (dir : Dir) (move : Bool) : CState × Nat × Rep :=
@@ -296,13 +308,12 @@ def convertVariable (s : CState) (v : Nat) (u : U) (cf : Rat) (dir : Dir) (move 
     let cfq : X := .lit cf (u.div (unitOfV s v))
     let isState := hasKey v s.odeDef                    -- `original_variable in state_symbols`, read early
     let free := getFree s
-    let (s1, nv) := convertInstance s v cf u dir move
+    let ci := convertInstance s v cf u dir move
     match dir with
-    | .output => (s1, nv, [])
+    | .output => (ci.1, ci.2, [])
     | .input =>
-        let (s2, rep1) := if isState then convertStateDeriv s1 v nv cfq else (s1, [])
-        let (s3, rep) := if free = some v then (sortedOdes s2).foldl (freeStep v nv cfq) (s2, rep1) else (s2, rep1)
-        let s4 := if rep.isEmpty then s3 else replaceRefs s3 rep
-        (s4, nv, rep)
+        let a := statePhase isState ci.1 v ci.2 cfq
+        let b := freePhase (free == some v) a v ci.2 cfq
+        (replacePhase b, ci.2, b.2)
 
 end Model.CV
